@@ -56,6 +56,10 @@ type Contract struct {
 	Sets      []*SetSpec
 	File      string
 	Notes     []string
+	// termination of recursive functions: a measure that is non-negative and strictly smaller at every recursive call,
+	// or a stated reason why the recursion ends (an assumption, listed in the evidence)
+	Decreases    *Clause
+	TerminatesBy string
 }
 
 // SetSpec: ghost map update performed by the contract at the call: sets $name(key) := value
@@ -106,7 +110,7 @@ type Axiom struct {
 var clauseKeywords = map[string]bool{
 	"func": true, "ext": true, "spec": true, "abstract": true, "axiom": true, "prop": true,
 	"requires": true, "ensures": true, "assigns": true, "loop": true, "call": true, "pure": true,
-	"may_panic": true, "nosafety": true, "astvalid": true, "trusted": true, "bounded": true, "fresh": true, "emits": true, "note": true, "sets": true, "ghost": true, "readonly": true, "trusted_frame": true, "guarded": true, "dyncalls_pure": true, "abstracts": true, "dyncalls_frame": true,
+	"may_panic": true, "nosafety": true, "astvalid": true, "trusted": true, "bounded": true, "fresh": true, "emits": true, "note": true, "sets": true, "ghost": true, "readonly": true, "trusted_frame": true, "guarded": true, "dyncalls_pure": true, "abstracts": true, "dyncalls_frame": true, "decreases": true, "terminates_by": true,
 }
 
 var labelRe = regexp.MustCompile(`^@([A-Za-z0-9_\-./]+)\s+`)
@@ -370,6 +374,15 @@ func (e *Engine) readContractFile(path, pkgKey string) error {
 					return err
 				}
 				cur.Calls = append(cur.Calls, &CallClause{Callee: callee, Ord: ord, Kind: kind, Clause: *c})
+			case "decreases":
+				x, err := parseSpec(rest)
+				if err != nil {
+					return fmt.Errorf("%s: %v", where, err)
+				}
+				cur.Decreases = &Clause{Label: "measure", Src: rest, E: x, Where: where}
+			case "terminates_by":
+				cur.TerminatesBy = rest
+				cur.Notes = append(cur.Notes, "termination of the recursion is assumed, not proved: "+rest)
 			case "pure":
 				cur.Pure = true
 				cur.HasAssign = true
